@@ -49,6 +49,8 @@ type gen struct {
 	verb []string
 	// hostile switches
 	allowInlineCmt bool
+	// noHeaderTrivia: no comment between a block's type name and its labels
+	noHeaderTrivia bool
 }
 
 func newGen(r *rand.Rand) *gen {
@@ -246,7 +248,8 @@ func (g *gen) file(o genOpts) {
 	}
 	if o.noFinalNL {
 		g.stripFinalNewline()
-		if g.p(3) {
+		if n := len(g.out); g.p(3) && n > 0 && !strings.HasPrefix(g.out[n-1].s, "#") && !strings.HasPrefix(g.out[n-1].s, "//") {
+			// (after an unterminated # or // comment a blank would belong to the comment)
 			g.gap(g.pick(" ", "\t", "  "))
 		}
 	}
@@ -395,7 +398,15 @@ func (g *gen) block(depth, maxDepth int) {
 	g.tok(g.pick("blk", "service", "Listener", "resource", "Demon", "http", "x-blk", "блок"))
 	nl := g.r.Intn(3)
 	for i := 0; i < nl; i++ {
-		g.sp1()
+		if g.noHeaderTrivia {
+			if g.style == styleWild {
+				g.gap(g.pick(wildGaps1...))
+			} else {
+				g.gap(" ")
+			}
+		} else {
+			g.sp1()
+		}
 		g.label()
 	}
 	g.sp()
@@ -977,9 +988,15 @@ func (g *gen) quoted(d int) {
 			g.tok(g.pick(strEscapes...))
 			prevDollar = false
 		case x < 9:
+			if prevDollar {
+				g.tok("_") // "$${" / "%%{" would be an escape, not an interpolation
+			}
 			g.interp(d)
 			prevDollar = false
 		default:
+			if prevDollar {
+				g.tok("_")
+			}
 			g.control(d)
 			prevDollar = false
 		}
